@@ -770,8 +770,9 @@ class InClass:
                 finally:
                     if pushed:
                         pop()
-                if index == 0:
-                    pkw['sequence-start'] = 0
+                # the first displayed element is done (with ``skip_unauthorized``
+                # it need not be the one with index 0)
+                pkw['sequence-start'] = 0
 
             result = join_unicode(result, encoding=self.encoding)
 
